@@ -2,3 +2,6 @@
 import DastardV.Proto
 import DastardV.Model.C12
 import DastardV.Props.C12
+import DastardV.Model.C14
+import DastardV.Props.C14
+import DastardV.Model.C18
